@@ -21,7 +21,7 @@ RULE = ('batches of seeded random inputs per class: Euler triples with roll/head
         'distinct inputs')
 ASSUMPTIONS = ['mpmath at 40 digits is exact relative to float64',
                'round-trip tolerance scales with 1/cos(pitch) (conditioning of Euler extraction)']
-REQUIRED_OBS = ['euler_matrix_mp', 'euler_matrix_float', 'sign_probes', 'roundtrip', 'rotvec_mp',
+REQUIRED_OBS = ['phi_block_near_singular', 'euler_matrix_mp', 'euler_matrix_float', 'sign_probes', 'roundtrip', 'rotvec_mp',
                 'rotvec_near_branch', 'phi_block_derivative', 'stacked_vs_single']
 REQUIRED_CLASSES = {'all': ['euler_generic', 'euler_steep', 'euler_special', 'rotvec_log', 'rotvec_branch',
                             'phi_block']}
@@ -211,6 +211,11 @@ def run_case(case):
         roll = rng.uniform(-180, 180, n)
         head = rng.uniform(-180, 180, n)
         pitch = rng.uniform(-85, 85, n)
+        # up to a thousandth of a degree from the singularity (the statement excludes only the singular attitude itself): step and tolerance scale
+        # with cos(pitch)
+        near = rng.random(n) < 0.3
+        pitch = np.where(near, rng.choice([-1, 1], n) * (90.0 - 10 ** rng.uniform(-3, 0.7, n)), pitch)
+        bump('phi_block_near_singular', int(near.sum()))
         rph = np.column_stack([roll, pitch, head])
         traj = pd.DataFrame(np.column_stack([rng.uniform(-80, 80, n), rng.uniform(-180, 180, n), rng.uniform(0, 1e4, n),
                                              rng.uniform(-100, 100, (n, 3)), rph]),
@@ -220,16 +225,19 @@ def run_case(case):
         blk = T[:, 6:9, 6:9]
         C = transform.mat_from_rph(rph)
 
+        cp_ = np.cos(pitch * D2R)
+
         def d_rph(h):
             cols = []
+            hv = h * cp_                      # per point: the Euler angles change on the scale phi / cos(pitch)
             for k in range(3):
-                e = np.zeros(3)
-                e[k] = h
+                e = np.zeros((n, 3))
+                e[:, k] = hv
                 Rp = Rotation.from_rotvec(e).as_matrix()
                 Rm = Rotation.from_rotvec(-e).as_matrix()
-                a = transform.mat_to_rph(np.einsum('ij,njk->nik', Rp, C))
-                b = transform.mat_to_rph(np.einsum('ij,njk->nik', Rm, C))
-                cols.append(wrap180(a - b) / (2 * h))
+                a = transform.mat_to_rph(np.einsum('nij,njk->nik', Rp, C))
+                b = transform.mat_to_rph(np.einsum('nij,njk->nik', Rm, C))
+                cols.append(wrap180(a - b) / (2 * hv)[:, None])
             return np.stack(cols, axis=2)
         h = 1e-3
         deriv = (4 * d_rph(h / 2) - d_rph(h)) / 3        # deg per rad, of rph(exp(phi) C) w.r.t. phi
@@ -237,6 +245,7 @@ def run_case(case):
         # INS - true, hence the block is minus the derivative
         res = np.abs(blk + deriv).max(axis=(1, 2))
         tol = 2e-6 / np.cos(pitch * D2R) ** 3
+        tol = np.where(near, 2e-5 * np.abs(blk).max(axis=(1, 2)) + 1e-6, tol)       # relative to the block itself near the singularity (FD step is cos-scaled)
         bump('phi_block_derivative', n)
         obs['max_phi_block_ratio'] = float((res / tol).max())
         if (res > tol).any():
